@@ -141,6 +141,11 @@ class GV:
 def make_config(root, sess, parameter_mode=True):
     from taskchain import Config
     lab_root = sess['lab_root']
+    if root.get('file_state'):
+        # the user rewrote these config files in place (same path) before building this config
+        from .emit import write_config_file
+        for fname, f in root['file_state'].items():
+            write_config_file(lab_root, fname, f)
     gv = None
     if root.get('global_vars'):
         vals = {k: (str(lab_root) if v == '<LABROOT>' else v) for k, v in root['global_vars']['values'].items()}
